@@ -158,8 +158,10 @@ pub fn gen_xyz(r: &mut Rng) -> Vec<String> {
                         _ => r.below(256).to_string(),
                     });
                 }
-                // extra columns are ignored
-                for _ in 0..r.below(3) {
+                // extra columns are ignored; now and then so many of them that the line is longer
+                // than the buffers a line reader may use (4 KiB, 8 KiB, 64 KiB)
+                let extra = if r.chance(1, 40) { *r.pick(&[1030u64, 2100, 4200, 33_000]) } else { r.below(3) };
+                for _ in 0..extra {
                     parts.push(r.pick(&["7", "abc", "1.5", "-"]).to_string());
                 }
                 lines.push(parts.join(" "));
@@ -203,6 +205,7 @@ fn run_xyz(case: &Case, lines: &[String], force_lf: bool, st: &mut RunStats) -> 
     }
     st.probe("xyz_last_line_without_newline", style == 2 && !lines.is_empty());
     st.probe("xyz_crlf_line_ends", style == 1 && !lines.is_empty());
+    st.probe("xyz_line_longer_than_4096_bytes", lines.iter().any(|l| l.len() > 4096));
     std::fs::write(&input, &text).expect("write xyz");
     let t1 = run_tool("e57-from-xyz", &input);
     if t1.code != Some(0) {
@@ -504,7 +507,8 @@ impl Prop for C20 {
             };
             let damage = if rc.index % 3 == 0 {
                 let len = build_image(&prog, &source, None).map(|(i, _)| i.len()).unwrap_or(1024);
-                match f.below(3) {
+                match f.below(4) {
+                    3 => build_image(&prog, &source, None).map(|(i, _)| super::c07::draw_near_miss_checksum(&mut f, &i)).unwrap_or_default(),
                     0 => super::c07::draw_alteration(&mut f, len),
                     1 => vec![Patch::Truncate { len: if f.chance(1, 3) { f.below(50) } else { f.below(len as u64 + 1) } }],
                     _ => vec![Patch::Extend { bytes: vec![0u8; 1 + f.usize_below(1500)] }],
